@@ -407,6 +407,9 @@ def random_dag(rng: random.Random, max_stages: int = 7, allow_fail: bool = True,
         if rng.random() < 0.15:
             s.setdefault("ctx", {})[rng.choice(keys)] = f"own.{r}"
         stages.append(s)
+    if rng.random() < 0.4:
+        # the order in which stages are listed / stored is not promised to be topological
+        rng.shuffle(stages)
     spec = {"name": "rand", "stages": stages}
     spec["confluent"] = is_status_confluent(spec)
     return spec
@@ -425,12 +428,16 @@ def is_status_confluent(spec: dict) -> bool:
                 halting = True
     if not halting:
         return True
-    # pure chain?
-    for i, s in enumerate(spec["stages"]):
-        want = [spec["stages"][i - 1]["ref"]] if i else []
-        if sorted(s.get("req") or []) != want:
+    # pure chain? (every stage has at most one requisite and at most one dependent)
+    deps: dict[str, int] = {}
+    for s in spec["stages"]:
+        req = s.get("req") or []
+        if len(req) > 1:
             return False
-    return True
+        for r in req:
+            deps[r] = deps.get(r, 0) + 1
+    roots = [s for s in spec["stages"] if not (s.get("req") or [])]
+    return len(roots) == 1 and all(n <= 1 for n in deps.values())
 
 
 def or_split_variant(rng: random.Random) -> dict:
